@@ -73,7 +73,7 @@ pub fn runlist(bytes: &[u8]) -> Vec<[i64; 3]> {
 
 struct World {
     objs: BTreeMap<i64, OwningIovec<'static>>,
-    tokens: BTreeMap<i64, Backref>,
+    tokens: BTreeMap<i64, (i64, Backref)>, // placeholder id -> (owning object, capability)
     held: BTreeMap<i64, AnchoredSlice>,
     pools: Pools,
     chunk_ids: BTreeMap<usize, (u64, usize)>, // base -> (id, len) of live chunks (from the registry)
@@ -324,16 +324,19 @@ fn do_op(w: &mut World, op: &Value, e: &mut Map<String, Value>) -> Result<(), St
             let pat = &w.pools.consts[0][..n]; // 251
             let tok = obj!().register_patch(pat);
             e.insert("ret".into(), json!(tok.len()));
-            w.tokens.insert(geti(op, "id"), tok);
+            w.tokens.insert(geti(op, "id"), (oid, tok));
         }
         "backfill" => {
             let id = geti(op, "id");
             let v = geti(op, "v") as usize;
             match w.tokens.remove(&id) {
-                Some(tok) => {
+                Some((owner, tok)) => {
+                    // "any_obj": the script only knows the placeholder; it belongs to whoever holds it now
+                    let target = if op["any_obj"].as_bool().unwrap_or(false) { owner } else { oid };
+                    e.insert("o".into(), json!(target));
                     let n = tok.len();
                     let fill = &w.pools.consts[v - 251][..n];
-                    match w.objs.get_mut(&oid) {
+                    match w.objs.get_mut(&target) {
                         Some(o) => o.backfill_or_panic(tok, fill),
                         None => {
                             e.insert("skip".into(), json!(1));
@@ -347,10 +350,17 @@ fn do_op(w: &mut World, op: &Value, e: &mut Map<String, Value>) -> Result<(), St
         }
         "clear" => {
             obj!().clear();
+            w.tokens.retain(|_, (owner, _)| *owner != oid);
         }
         "take" => {
             let t = obj!().take();
-            w.objs.insert(geti(op, "to"), t);
+            let to = geti(op, "to");
+            w.objs.insert(to, t);
+            for (owner, _) in w.tokens.values_mut() {
+                if *owner == oid {
+                    *owner = to;
+                }
+            }
         }
         "clone" => {
             let c = obj!().clone();
@@ -360,6 +370,7 @@ fn do_op(w: &mut World, op: &Value, e: &mut Map<String, Value>) -> Result<(), St
             if w.objs.remove(&oid).is_none() {
                 e.insert("skip".into(), json!(1));
             }
+            w.tokens.retain(|_, (owner, _)| *owner != oid);
         }
         "flush" => {
             obj!().arena().flush_cache();
